@@ -862,10 +862,46 @@ func ruleLimitScale(c *Ctx) {
 			}
 			n++
 			key := fmt.Sprintf("limit-scale.%s#%d", FuncKey(fd.Obj), n)
-			// clamp idiom: the operand is min(x, <bound derived from MaxInt64>)
+			// clamp idiom: an operand of the multiplication is min(x, <bound derived from MaxInt64>); a product formed
+			// *inside* the arguments of min has already wrapped when min sees it
 			clamped := false
 			for _, r := range as.Rhs {
-				if m := f.Mentions(r, w.blk); m["builtin.min"] && m["math.MaxInt64"] {
+				nMul, nClamped := 0, 0
+				ast.Inspect(r, func(x ast.Node) bool {
+					be, ok := x.(*ast.BinaryExpr)
+					if !ok || be.Op != token.MUL {
+						return true
+					}
+					if tv, ok := info.Types[be]; ok && tv.Value != nil {
+						return true
+					}
+					nMul++
+					for _, op := range []ast.Expr{be.X, be.Y} {
+						if call, ok := ast.Unparen(op).(*ast.CallExpr); ok {
+							if id, ok := ast.Unparen(call.Fun).(*ast.Ident); ok {
+								if b, ok := info.ObjectOf(id).(*types.Builtin); ok && b.Name() == "min" && f.Mentions(call, w.blk)["math.MaxInt64"] {
+									// the arguments of min must not contain a non-constant product themselves
+									inner := false
+									for _, a := range call.Args {
+										ast.Inspect(a, func(y ast.Node) bool {
+											if ib, ok := y.(*ast.BinaryExpr); ok && ib.Op == token.MUL {
+												if tv, ok := info.Types[ib]; !ok || tv.Value == nil {
+													inner = true
+												}
+											}
+											return true
+										})
+									}
+									if !inner {
+										nClamped++
+									}
+								}
+							}
+						}
+					}
+					return true
+				})
+				if nMul > 0 && nMul == nClamped {
 					clamped = true
 				}
 			}
@@ -2948,3 +2984,110 @@ func ruleParamUsed(c *Ctx, pkgs ...string) {
 }
 
 var paramUnusedOK = map[string]string{}
+
+// ---------------------------------------------------------------------------
+// sibling-arms (C12, C13): Array and Struct are the same container with one difference (structs are cloned on
+// assignment). Wherever an instruction's type switch gives each of them an arm of its own and both arms perform the
+// same container operation (call the same methods on the item), they also maintain the same bookkeeping: the set of
+// variables an arm assigns is the same in both. An arm that removes the element but forgets to note whether the
+// container is referenced leaves the removed element counted (or releases it twice).
+func ruleSiblingArms(c *Ctx) {
+	pk := c.P.Pkg("pkg/vm")
+	if pk == nil {
+		c.Lost("sibling-arms.anchor", "package vm not found")
+		return
+	}
+	info := pk.TypesInfo
+	kindOf := func(e ast.Expr) string {
+		t := info.TypeOf(e)
+		if p, ok := t.(*types.Pointer); ok {
+			t = p.Elem()
+		}
+		if nt, ok := t.(*types.Named); ok && nt.Obj().Pkg() != nil && pkgRel(nt.Obj().Pkg()) == "pkg/vm/stackitem" {
+			return nt.Obj().Name()
+		}
+		return ""
+	}
+	n := 0
+	for _, fd := range c.P.AllFuncDecls() {
+		if fd.Pkg != pk || fd.Decl.Body == nil {
+			continue
+		}
+		ast.Inspect(fd.Decl.Body, func(x ast.Node) bool {
+			ts, ok := x.(*ast.TypeSwitchStmt)
+			if !ok {
+				return true
+			}
+			var arr, str *ast.CaseClause
+			for _, cl := range ts.Body.List {
+				cc := cl.(*ast.CaseClause)
+				if len(cc.List) != 1 {
+					continue
+				}
+				switch kindOf(cc.List[0]) {
+				case "Array":
+					arr = cc
+				case "Struct":
+					str = cc
+				}
+			}
+			if arr == nil || str == nil || len(arr.Body) == 0 || len(str.Body) == 0 {
+				return true
+			}
+			summary := func(cc *ast.CaseClause) (assigned, called map[string]bool) {
+				assigned, called = map[string]bool{}, map[string]bool{}
+				for _, st := range cc.Body {
+					ast.Inspect(st, func(y ast.Node) bool {
+						switch z := y.(type) {
+						case *ast.AssignStmt:
+							for _, l := range z.Lhs {
+								if id, ok := l.(*ast.Ident); ok && id.Name != "_" && z.Tok == token.ASSIGN {
+									assigned[id.Name] = true
+								}
+							}
+						case *ast.CallExpr:
+							if se, ok := ast.Unparen(z.Fun).(*ast.SelectorExpr); ok {
+								called[se.Sel.Name] = true
+							}
+						}
+						return true
+					})
+				}
+				return
+			}
+			aAs, aCalls := summary(arr)
+			sAs, sCalls := summary(str)
+			// same container operation in both arms?
+			common := false
+			for m := range aCalls {
+				if sCalls[m] {
+					common = true
+				}
+			}
+			if !common {
+				return true
+			}
+			n++
+			key := fmt.Sprintf("sibling-arms.%s#%d", FuncKey(fd.Obj), n)
+			var diff []string
+			for v := range aAs {
+				if !sAs[v] {
+					diff = append(diff, v+" (Array arm only)")
+				}
+			}
+			for v := range sAs {
+				if !aAs[v] {
+					diff = append(diff, v+" (Struct arm only)")
+				}
+			}
+			sort.Strings(diff)
+			if len(diff) == 0 {
+				c.OK(key, c.P.Pos(ts.Pos()), "the Array and the Struct arm maintain the same variables")
+			} else {
+				c.Fail(key, c.P.Pos(ts.Pos()), fmt.Sprintf("%s: the Array arm and the Struct arm of this type switch perform the same container operation but do not maintain the same bookkeeping: %s", FuncKey(fd.Obj), strings.Join(diff, ", ")))
+			}
+			return true
+		})
+	}
+	c.Floor("type switches with sibling Array/Struct arms", n, 1)
+}
